@@ -1058,7 +1058,7 @@ func (c *Corpus) LongRepeats(r *vlib.Rand, seed []byte, k int, maxTotal int) (ou
 		if i+n > len(seed) {
 			n = len(seed) - i
 		}
-		total := []int{4096, 16384, 65536}[r.Intn(3)]
+		total := []int{4096, 16384, 65536, 65536 + 700, 2*65536 + 300}[r.Intn(5)] // the last two cross the 16 bit mark of lengths and offsets
 		if total > maxTotal {
 			total = maxTotal
 		}
